@@ -127,6 +127,54 @@ pub fn gen(tier: &str, seed: u64) -> Vec<String> {
             }
         }
     }
+    // (5) two tap-dance keys (each counts its own taps; a press of the other key ends a dance), in
+    // all four lazy/eager combinations, and a plain key
+    {
+        let kc = code("c");
+        for (ea, eb) in [(true, true), (true, false), (false, true), (false, false)] {
+            for t in [3u32, 10] {
+                for (la, lb) in [(3usize, 3usize), (2, 3), (1, 2)] {
+                    let ma = ["q", "w", "x"][..la].join(" ");
+                    let mb = ["1", "2", "3"][..lb].join(" ");
+                    let cfg = format!(
+                        "(defcfg rapid-event-delay 0)\n(defsrc a b c)\n(deflayer l0 ({} {t} ({ma})) ({} {} ({mb})) c)\n",
+                        if ea { "tap-dance-eager" } else { "tap-dance" },
+                        if eb { "tap-dance-eager" } else { "tap-dance" },
+                        t + 2
+                    );
+                    let n_max = if thorough { 6 } else if (la, lb) == (3, 3) { 5 } else { 4 };
+                    for n in 2..=n_max {
+                        let g: Vec<u32> = if n <= 3 { vec![0, 1, t - 1, t, t + 1] } else if n <= 4 { vec![1, t - 1, t + 1] } else { vec![1, t + 3] };
+                        for h in all_histories(&[ka, kb], n, &g, tail(t)) {
+                            lines.push(mk_line("LAY", false, &cfg, &h));
+                        }
+                    }
+                    // every tap complete (press, release) - the way a user types: a^i b^j a^k
+                    for (i, j, k) in [(1usize, 1usize, 1usize), (1, 2, 0), (1, 3, 0), (2, 2, 1), (1, 3, 2), (3, 1, 3), (2, 3, 2)] {
+                        for gap in [1u32, 2, t - 1] {
+                            let mut h = vec![];
+                            for (key, cnt) in [(ka, i), (kb, j), (ka, k)] {
+                                for _ in 0..cnt {
+                                    h.push(HEv::Press(0, key));
+                                    h.push(HEv::Tick(gap));
+                                    h.push(HEv::Release(0, key));
+                                    h.push(HEv::Tick(gap));
+                                }
+                            }
+                            h.push(HEv::Tick(tail(t)));
+                            lines.push(mk_line("LAY", false, &cfg, &h));
+                        }
+                    }
+                    let n_r = if thorough { 300 } else { 30 };
+                    for _ in 0..n_r {
+                        let n_ev = r.range(4, 14) as usize;
+                        let h = consistent_history(&mut r, &[ka, kb, kc], n_ev, &[0, 1, 1, 2, t - 1, t, t + 1, t + 3], tail(t));
+                        lines.push(mk_line("LAY", false, &cfg, &h));
+                    }
+                }
+            }
+        }
+    }
     // (4) random longer schedules over all of the above
     let n_rand = if thorough { 40000 } else { 4000 };
     for i in 0..n_rand {
